@@ -11,10 +11,10 @@ CONSTANTS
   AuctionImpl = "intended"
   Resolution = "locked"
   MaxRounds = 0
-  ScenLen = 2
+  ScenLen = 3
   MaxSignFail = 1
   History = FALSE
-  Matrix = TRUE
-  Script = "none"
+  Matrix = FALSE
+  Script = "fwdkinds"
 INVARIANTS Emit
 CHECK_DEADLOCK FALSE
